@@ -260,6 +260,116 @@ def collect(d):
     return out
 
 
+# ------------------------------------------------------------------------------------------------ racing collection
+def fams_of(metrics):
+    return [(m.name, m.documentation, m.type, [(s.name, dict(s.labels), s.value) for s in m.samples]) for m in metrics]
+
+
+RACE_PLACES = ('first', 'last', 'middle', 'spread', 'rev', 'keep')      # + 'shuffle:<seed>'
+
+
+def race_order(paths, doomed, place):
+    """The order in which a racing collection meets the listed files (a directory listing has no pinned order).
+    `doomed`: basenames that will vanish right after the listing.  'keep' = as the OS listed them; every other place
+    is a function of the sorted basenames: doomed files first / last / together in the middle / spread from the first to
+    the last position with other files between and after them / reverse sorted / seeded shuffle."""
+    if place == 'keep':
+        return list(paths)
+    base = sorted(paths, key=os.path.basename)
+    dm = [p for p in base if os.path.basename(p) in doomed]
+    rest = [p for p in base if os.path.basename(p) not in doomed]
+    if place == 'first':
+        return dm + rest
+    if place == 'last':
+        return rest + dm
+    if place == 'middle':
+        h = len(rest) // 2
+        return rest[:h] + dm + rest[h:]
+    if place == 'spread':
+        out = list(rest)
+        n = len(dm)
+        for j, p in enumerate(dm):
+            at = 0 if n == 1 else (j * len(rest)) // (n - 1)
+            out.insert(at + j, p)
+        return out
+    if place == 'rev':
+        return base[::-1]
+    if place.startswith('shuffle:'):
+        import random
+        random.Random(int(place[8:])).shuffle(base)
+        return base
+    raise lib.Infra('bad race place %r' % (place,))
+
+
+class _RacingGlob:
+    """stands in for the `glob` module inside prometheus_client.multiprocess: the FIRST listing made through it (the
+    collector's) is handed to `race` (which reorders it and lets the rest of the world act before the reads start);
+    every later call — mark_process_dead's own globs — goes to the real module"""
+
+    def __init__(self, real, race):
+        self._real, self._race, self.fired = real, race, False
+
+    def glob(self, pathname, *a, **kw):
+        listing = self._real.glob(pathname, *a, **kw)
+        if self.fired:
+            return listing
+        self.fired = True
+        return self._race(listing)
+
+    def iglob(self, pathname, *a, **kw):
+        if self.fired:
+            return self._real.iglob(pathname, *a, **kw)
+        return iter(self.glob(pathname, *a, **kw))
+
+    def __getattr__(self, name):
+        return getattr(self._real, name)
+
+
+def collect_racing(d, reorder, between, via='glob'):
+    """A collection that RACES with the rest of the world: the collector lists the directory, `reorder(listing)` fixes
+    the order it meets the files in, `between(listing)` runs (processes are reaped, mark_process_dead removes files),
+    and only then are the listed files read.  -> (families, the listing the collector worked from, how)
+
+    via='glob': the real `MultiProcessCollector(...).collect()`, with the `glob` name of prometheus_client.multiprocess
+    replaced for one listing; if the collector does not list through that name (hook never fired) or via='merge': the
+    public `MultiProcessCollector.merge(files)` on an explicit file list taken before `between` ran."""
+    import types
+    from prometheus_client import multiprocess
+    from prometheus_client.registry import CollectorRegistry
+    state = {'listing': None}
+
+    def race(ls):
+        ls = list(reorder(list(ls)))
+        state['listing'] = ls
+        between(list(ls))
+        return list(ls)
+
+    if via == 'glob':
+        old = multiprocess.__dict__.get('glob')
+        hook = None
+        if isinstance(old, types.ModuleType):
+            hook = _RacingGlob(old, race)
+        elif callable(old):         # `from glob import glob`
+            box = {'fired': False}
+
+            def hook(pathname, *a, **kw):
+                ls = old(pathname, *a, **kw)
+                if box['fired']:
+                    return ls
+                box['fired'] = True
+                return race(ls)
+        if hook is not None:
+            multiprocess.glob = hook
+            try:
+                fams = fams_of(multiprocess.MultiProcessCollector(CollectorRegistry(), d).collect())
+            finally:
+                multiprocess.glob = old
+            if state['listing'] is not None:
+                return fams, state['listing'], 'glob'
+    ls = race(listing(d))
+    return fams_of(multiprocess.MultiProcessCollector.merge(ls, accumulate=True)), ls, 'merge'
+
+
 def snapshot(d):
     """basename -> ordered [(key_json, value, ts)] for every *.db file (an `Unreadable` list where the reader raised)"""
     out = {}
